@@ -113,7 +113,7 @@ def fmt_op(op):
     if k == "ord":
         return "ord:" + (",".join(map(str, op[1])) if op[1] else "-")
     if k == "dbt":
-        return f"dbt:{op[1]}:{1 if op[2] else 0}"
+        return f"dbt:{op[1].replace('::', '~~')}:{1 if op[2] else 0}"      # ':' separates fields
     if k == "prune":
         return f"prune:{ix(op[1])}"
 
